@@ -11,14 +11,20 @@ SERVER_SCRIPT = r'''
 import sys, asyncio, os
 sys.path.insert(0, os.path.join(os.environ.get("NV_REPO", "/repo"), "src"))
 root, cert, key, port, patch, reqcert = sys.argv[1:7]
+with_locations = len(sys.argv) > 7 and sys.argv[7] == "locations"
 if float(patch) > 0:
     import asyncio.constants as C
     C.SSL_SHUTDOWN_TIMEOUT = float(patch)
 from pathlib import Path
 from nauyaca.server.config import ServerConfig
 from nauyaca.server.server import start_server
+extra = {}
+if with_locations:
+    # location-based routing: one static location; everything else falls to the server's default (404) handler
+    from nauyaca.server.location import LocationConfig, HandlerType
+    extra["locations"] = [LocationConfig(prefix="/docs/", handler_type=HandlerType.STATIC, document_root=Path(root))]
 cfg = ServerConfig(host="127.0.0.1", port=int(port), document_root=Path(root), certfile=Path(cert), keyfile=Path(key),
-                   enable_rate_limiting=False, enable_access_control=False, require_client_cert=(reqcert == "1"))
+                   enable_rate_limiting=False, enable_access_control=False, require_client_cert=(reqcert == "1"), **extra)
 asyncio.run(start_server(cfg, enable_rate_limiting=False, log_level="ERROR"))
 '''
 
@@ -33,7 +39,7 @@ def make_body(n):
     return bytes(out[:n])
 
 class Server:
-    def __init__(self, tmp, backend, shutdown_patch=0.0):
+    def __init__(self, tmp, backend, shutdown_patch=0.0, locations=False):
         from nauyaca.security.certificates import generate_self_signed_cert
         self.port = free_port()
         cert, key = generate_self_signed_cert("localhost")
@@ -41,7 +47,8 @@ class Server:
         open(c, "wb").write(cert); open(k, "wb").write(key)
         env = dict(os.environ)
         self.p = subprocess.Popen([PY, "-c", SERVER_SCRIPT, os.path.join(tmp, "capsule"), c, k, str(self.port), str(shutdown_patch),
-                                   "1" if backend == "pyopenssl" else "0"], env=env, stdout=subprocess.DEVNULL, stderr=subprocess.PIPE)
+                                   "1" if backend == "pyopenssl" else "0"] + (["locations"] if locations else []),
+                                  env=env, stdout=subprocess.DEVNULL, stderr=subprocess.PIPE)
         deadline = time.time() + 20
         while time.time() < deadline:
             if self.p.poll() is not None:
@@ -122,6 +129,39 @@ def run_whole_responses(res, tier, pid="C01"):
                                                          "head": got[:40].decode("latin-1"), "ended": ended}})
             finally:
                 srv.stop()
+    finally:
+        shutil.rmtree(tmp, ignore_errors=True)
+
+def run_unrouted_paths(res, tier, pid="C01"):
+    """location-based routing (one static location at /docs/): requests outside every location reach the server's own default
+    handler.  Awkward but valid paths - long runs of unreserved characters followed by a sub-delimiter, percent-escapes,
+    very long names - must each be answered (51) promptly, and the server must still answer afterwards."""
+    tmp = scratch_dir("nv-live3-")
+    try:
+        os.makedirs(os.path.join(tmp, "capsule", "docs"))      # the static handler maps the whole request path below its root
+        open(os.path.join(tmp, "capsule", "docs", "index.gmi"), "wb").write(b"# docs\n")
+        srv = Server(tmp, "stdlib", 0.0, locations=True)
+        try:
+            paths = ["/other/page", "/other/a(b)!", "/other/" + "archive_2024_final_report_draft_revision_0007_backup_copy" + "!",
+                     "/x/" + "a" * 60 + "(", "/" + "w-" * 40 + "@", "/%41" * 30 + "*", "/" + "z" * 900 + ";", "/other/" + "._~-" * 20 + "'",
+                     "/docs/index.gmi", "/other/page"]
+            for path in paths:
+                t0 = time.time()
+                try:
+                    got, ended = fetch(srv.port, path, 0.0, timeout=6)
+                except Exception as e:
+                    got, ended = b"", "%s: %s" % (type(e).__name__, e)
+                dt = time.time() - t0
+                res.evaluations += 1; res.count("live-unrouted")
+                res.nontriv(("live-unrouted", path[:40]))
+                want_ok = got.startswith(b"20 ") if path.startswith("/docs/") else (got[:2].isdigit() and got[2:3] == b" " and got.count(b"\r\n") >= 1 and got[:1] in b"45")
+                if not want_ok or ended != "eof" or dt > 5:
+                    res.violations.append({"clause": "every request gets exactly one response, promptly (live, location-based routing, default handler)",
+                                           "signature": "%s:live-unrouted" % pid, "case": {"path": path[:120]},
+                                           "trace": {"received": got[:60].decode("latin-1"), "ended": ended, "seconds": round(dt, 2)}})
+                    if dt > 5: break          # the event loop is blocked: the remaining requests would only repeat the finding
+        finally:
+            srv.stop()
     finally:
         shutil.rmtree(tmp, ignore_errors=True)
 
